@@ -846,3 +846,87 @@ def rule_G8(prog):
         if problems:
             r.find(fn.path, "grouping", "group_diff_ops: " + "; ".join(problems[:4]), file=fn.file, line=fn.line)
     return r
+
+
+# ------------------------------------------------------------------ G9: bulk removal from an op list conserves items
+def _write_roots(m):
+    """For every assignment through a pointer in a body: the argument locals the written place is reached from."""
+    from .guard import roots
+    out = []
+    for bi, b in enumerate(m.blocks):
+        for s in b["stmts"]:
+            if s["k"] != "assign" or "deref" not in s["p"]["proj"]:
+                continue
+            base = m.expand(m.resolve_place({"l": s["p"]["l"], "proj": []}), depth=6)
+            out.append((bi, s, {l for l in roots(base) if l <= m.arg_count}))
+        t = b["term"]
+        if t["k"] == "call":
+            # a `&mut` handed to a method (`a.grow_right(n)`) writes through it as well
+            for a in t["args"][:1]:
+                if a.get("k") in ("copy", "move"):
+                    term = m.expand(m.resolve_operand(a), depth=6)
+                    ty = m.local_ty_str(a["p"]["l"]) if not a["p"]["proj"] else ""
+                    if ty.startswith("&mut"):
+                        out.append((bi, t, {l for l in roots(term) if l <= m.arg_count}))
+    return out
+
+
+def rule_G9(prog):
+    r = RuleResult("G9", "bulk removal from a list of DiffOp conserves items: `retain` only drops ops shown empty; in "
+                         "`dedup_by(|a, b| ..)` -- which removes `a`, the LATER element, when the closure says true -- nothing is "
+                         "written into `a` (it is about to be dropped) and the surviving `b` is what grows; `dedup`, "
+                         "`dedup_by_key`, `truncate`, `pop`, `swap_remove`, `split_off`, `clear` are not used on a script")
+    closures = {f.path: f for f in prog.user_fns() if f.kind == "Closure"}
+    BULK = ("retain", "retain_mut", "dedup_by", "dedup", "dedup_by_key", "truncate", "pop", "swap_remove", "split_off", "clear")
+    for fn in prog.user_fns():
+        if not fn.mir or not (fn.module.startswith("algorithms::compact") or fn.module.startswith("algorithms::replace") or fn.module == "common"):
+            continue
+        m = fn.mir
+        for bb, t in m.calls():
+            c = m.callee(t)
+            if not c or not c["path"].startswith("std::vec::Vec::<T, A>::") or c.get("method") not in BULK or not _mentions_diffop(c["args"]):
+                continue
+            # a Vec<Vec<DiffOp>> (groups) is not a script
+            first = c["args"][0] if c["args"] else {}
+            if not (isinstance(first, dict) and first.get("k") == "adt" and first.get("path") == DIFFOP):
+                continue
+            meth = c["method"]
+            r.instances += 1
+            problems = []
+            clos = None
+            for a in c["args"]:
+                if isinstance(a, dict) and a.get("k") == "closure":
+                    clos = closures.get(a["path"])
+            if meth in ("retain", "retain_mut"):
+                ok = False
+                if clos is not None and clos.hir and clos.hir.get("body"):
+                    from .tables import unwrap, origin
+                    body = unwrap(clos.hir["body"])
+                    for _ in range(3):
+                        if isinstance(body, dict) and body.get("k") == "block" and not body["b"]["stmts"] and body["b"].get("expr"):
+                            body = unwrap(body["b"]["expr"])
+                    if isinstance(body, dict) and body.get("k") == "unary" and body.get("op") == "Not":
+                        x = unwrap(body["x"])
+                        if isinstance(x, dict) and x.get("k") == "mcall" and x["name"] == "is_empty" and str(x.get("method", "")).endswith("DiffOp::is_empty"):
+                            ok = True
+                if not ok:
+                    problems.append("`retain` keeps ops by a condition other than `!op.is_empty()`: ops that still hold items are dropped")
+            elif meth == "dedup_by":
+                if clos is None or not clos.mir:
+                    problems.append("closure of dedup_by not found")
+                else:
+                    cm = clos.mir
+                    ws = _write_roots(cm)
+                    into_a = [w for w in ws if 2 in w[2]]
+                    into_b = [w for w in ws if 3 in w[2]]
+                    if into_a:
+                        problems.append("the closure writes into its first parameter `%s` (line %d), the element dedup_by REMOVES when the "
+                                        "closure returns true: what was added there is lost" % (cm.local_name(2) or "_2", into_a[0][1].get("line", clos.line)))
+                    if not into_b:
+                        problems.append("the surviving element (second parameter `%s`) never grows: the removed op's items vanish" % (cm.local_name(3) or "_3"))
+            else:
+                problems.append("`%s` removes ops from a script without conserving their items" % meth)
+            r.ob(not problems, "%s: `%s` line %d: %s" % (fn.path, t.get("src", meth)[:60], t["line"], problems or "conserving"))
+            if problems:
+                r.find(fn.path, "bulk-removal:%s" % meth, "`%s`: %s" % (t.get("src", meth)[:70], "; ".join(problems)), file=fn.file, line=t["line"])
+    return r
